@@ -55,3 +55,11 @@ claim("C09",
       "Runtime monitor over recorded answer sequences: the same Query value run twice, the rebuilt program, 5-8 fresh threads and (xproc lane) 2 fresh processes must yield identical sequences up to renaming of reified variables and order within constraint sets; differences are classified representation-only / order-only / semantic; every exhausted iterator is probed 3 more times (fusedness); infinite-stream programs must deliver 12 answers within 2*10^6 engine steps (hook H1; bounded restatement of laziness). Held on the executions observed.",
       "Trusted: fresh threads/processes as stand-ins for different hash seeds; the step bound for laziness.",
       "runtime monitoring: cross-run comparison of recorded answer sequences under different hash seeds; bounded-progress step monitor")
+claim("C10",
+      "Metamorphic + snapshot-immutability runtime monitor: for generated `prefix, conde{A,B[,C]}, suffix` programs whose prefix posts constraints/domains that every branch wakes (shared DistinctFd2Constraint objects, shared domains, shared disequalities), the combined answers must equal the union of the branches run separately; a clone of the state is retained at every probe with an order-insensitive fingerprint (substitution, constraint internals, domains, user state) and re-fingerprinted when the whole search is over; every answer's user-state tag trail must be the trail of its own branch. Held on the executions observed.",
+      "Trusted: derived Debug output as the fingerprint of constraint internals; pvmon::refsem for tag trails.",
+      "runtime monitoring: snapshot-immutability invariant on retained state clones + decomposition-metamorphic oracle + user-state event trails")
+claim("C11",
+      "Runtime monitor built into every project body (start and end, i.e. also after suspension and resumption): walk*(projected term) must equal walk*(original variable) in the state that runs the body; generated programs make 1..n states (member, conde, shared structured terms with differently bound inner variables, loop prefixes) reach the same project goal, with multi-goal and nested-project bodies; answers are compared with the reference (project = walk*), the same Query value is run twice, panics are violations. Held on the executions observed.",
+      "Trusted: the harness builder mirrors the macro expansion of project; pvmon::refsem.",
+      "runtime monitoring: in-body value-consistency monitor (fngoal probes) + reference-model comparison + repeated-run comparison")
